@@ -643,6 +643,25 @@ def _rechunk_stage_transfer(old_chunks, new_chunks, itemsize):
 # ============================================================================
 
 
+def _dumps5_unshared(obj):
+    """``_dumps5`` without pickle's memo: the bytes depend on the VALUE only.
+
+    With the memo, ``((2, 2), (2, 2))`` pickles differently depending on whether
+    the two inner tuples happen to be one object (a literal, a cached chunks
+    tuple) or two equal ones, so equal rechunks got different names."""
+    import io
+    import pickle
+
+    buf = io.BytesIO()
+    pickler = pickle.Pickler(buf, protocol=5)
+    pickler.fast = True  # no memo: shared and equal-but-distinct objects pickle alike
+    pickler.dump(obj)
+    out = buf.getvalue()
+    if b"__main__" in out:
+        return _dumps5(obj)
+    return out
+
+
 class Rechunk(ArrayExpr):
     _parameters = [
         "array",
@@ -682,7 +701,7 @@ class Rechunk(ArrayExpr):
         # ``tokenize`` on any pickling failure.
         try:
             non_array = [self.operand(p) for p in self._parameters if p != "array"]
-            return "rechunk-merge-rc1" + hash_buffer_hex(_dumps5((self.array._name, *non_array)))
+            return "rechunk-merge-rc1" + hash_buffer_hex(_dumps5_unshared((self.array._name, *non_array)))
         except Exception:
             return "rechunk-merge-" + tokenize(*self.operands)
 
